@@ -538,6 +538,106 @@ theorem atoi_natToDec (n : Nat) (hn : n < 9223372036854775808) : atoi (natToDec 
     simp [atoi, hb.2.2.2.2.2.1, hb.2.2.2.2.2.2, atoiUnsigned, hall, h3, hn]
 
 
+/-! ### the size field: optional `+`, leading zeros, decimal digits -/
+
+def sizeTextT (plus : Bool) (zeros : Nat) (n : Nat) : Bytes :=
+  (if plus then [43] else []) ++ (List.replicate zeros 48 ++ natToDec n)
+
+theorem digitsVal_zeros (z : Nat) (ds : Bytes) : digitsVal (List.replicate z 48 ++ ds) = digitsVal ds := by
+  have h : ∀ z : Nat, List.foldl (fun a (d : UInt8) => a * 10 + (d.toNat - 48)) 0 (List.replicate z (48 : UInt8)) = 0 := by
+    intro z
+    induction z with
+    | zero => rfl
+    | succ k ih => rw [List.replicate_succ', List.foldl_append, ih]; rfl
+  simp only [digitsVal, List.foldl_append, h]
+
+theorem atoiUnsigned_digits (ds : Bytes) (hne : ds ≠ []) (hall : ∀ b ∈ ds, isDigit b = true)
+    (hv : digitsVal ds < 9223372036854775808) : atoiUnsigned false ds = some (digitsVal ds : Int) := by
+  have hall' : ds.all isDigit = true := List.all_eq_true.mpr hall
+  have hemp : ds.isEmpty = false := by cases ds with | nil => exact absurd rfl hne | cons _ _ => rfl
+  simp [atoiUnsigned, hall', hemp, hv]
+
+theorem atoi_digits (ds : Bytes) (hne : ds ≠ []) (hall : ∀ b ∈ ds, isDigit b = true)
+    (hv : digitsVal ds < 9223372036854775808) : atoi ds = some (digitsVal ds : Int) := by
+  cases ds with
+  | nil => exact absurd rfl hne
+  | cons b r =>
+    have hb := isDigit_props (hall b (by simp))
+    have := atoiUnsigned_digits (b :: r) hne hall hv
+    simp only [atoi, hb.2.2.2.2.2.1, hb.2.2.2.2.2.2, if_false]
+    exact this
+
+/-- what the decoders need of a size field that denotes `n` -/
+structure SizeTok (sz : Bytes) (n : Nat) : Prop where
+  noSP : SP ∉ sz
+  noLF : LF ∉ sz
+  head : ∃ c r, sz = c :: r ∧ c < 128 ∧ isAsciiWs c = false ∧ c ≠ LBR
+  revEdge : spWidthRev sz.reverse = 0
+  val : atoi sz = some (n : Int)
+
+theorem sizeTextT_tok (plus : Bool) (zeros n : Nat) (hn : n < 9223372036854775808) :
+    SizeTok ((if plus then [43] else []) ++ (List.replicate zeros 48 ++ natToDec n)) n := by
+  show SizeTok (sizeTextT plus zeros n) n
+  have ⟨h1, h2, h3⟩ := natToDec_spec n
+  have hdig : ∀ b ∈ List.replicate zeros (48 : UInt8) ++ natToDec n, isDigit b = true := by
+    intro b hb
+    rcases List.mem_append.mp hb with hb | hb
+    · rw [(List.mem_replicate.mp hb).2]; decide
+    · exact h2 b hb
+  have hne : List.replicate zeros (48 : UInt8) ++ natToDec n ≠ [] := by simp [h1]
+  have hval : digitsVal (List.replicate zeros 48 ++ natToDec n) = n := by rw [digitsVal_zeros, h3]
+  have hmem : ∀ b ∈ sizeTextT plus zeros n, isDigit b = true ∨ b = 43 := by
+    intro b hb
+    unfold sizeTextT at hb
+    rcases List.mem_append.mp hb with hb | hb
+    · cases plus <;> simp at hb; exact Or.inr hb
+    · exact Or.inl (hdig b hb)
+  have hat : atoi (List.replicate zeros 48 ++ natToDec n) = some (n : Int) := by
+    have := atoi_digits _ hne hdig (by rw [hval]; exact hn)
+    rw [hval] at this; exact this
+  refine ⟨?_, ?_, ?_, ?_, ?_⟩
+  · intro hm; rcases hmem _ hm with h | h
+    · exact (isDigit_props h).2.2.2.1 rfl
+    · exact absurd h (by decide)
+  · intro hm; rcases hmem _ hm with h | h
+    · exact (isDigit_props h).2.2.2.2.1 rfl
+    · exact absurd h (by decide)
+  · cases plus with
+    | true => exact ⟨43, _, rfl, by decide, by decide, by decide⟩
+    | false =>
+      cases hd : List.replicate zeros (48 : UInt8) ++ natToDec n with
+      | nil => exact absurd hd hne
+      | cons c r =>
+        have hp := isDigit_props (hdig c (by simp [hd]))
+        exact ⟨c, r, by simp [sizeTextT, hd], hp.1, hp.2.1, hp.2.2.1⟩
+  · -- the last byte is the last digit of natToDec n
+    have hr : (sizeTextT plus zeros n).reverse = (natToDec n).reverse ++ ((List.replicate zeros (48 : UInt8)).reverse ++ (if plus then [43] else []).reverse) := by
+      simp [sizeTextT]
+    rw [hr]
+    cases hd : (natToDec n).reverse with
+    | nil => simp at hd; exact absurd hd h1
+    | cons x r =>
+      have hx : x ∈ natToDec n := by
+        have : x ∈ (natToDec n).reverse := by rw [hd]; simp
+        simpa using this
+      have hp := isDigit_props (h2 x hx)
+      exact spWidthRev_ascii x _ hp.1 hp.2.1
+  · cases plus with
+    | true =>
+      have : sizeTextT true zeros n = 43 :: (List.replicate zeros 48 ++ natToDec n) := rfl
+      rw [this]
+      have hu := atoiUnsigned_digits _ hne hdig (by rw [hval]; exact hn)
+      rw [hval] at hu
+      simp only [atoi]
+      exact hu
+    | false =>
+      have : sizeTextT false zeros n = List.replicate zeros 48 ++ natToDec n := rfl
+      rw [this]; exact hat
+
+theorem sizeText_tok (l : ItemLay) (n : Nat) (hn : sizeOK n = true) : SizeTok (sizeText l n) n := by
+  simp only [sizeOK, decide_eq_true_eq] at hn
+  exact sizeTextT_tok l.szPlus l.szZeros n hn
+
 /-- a string with a white-space rune at its head splits into that rune and the rest -/
 theorem spWidth_split (b : UInt8) (r : Bytes) (h : spWidth (b :: r) ≠ 0) :
     ∃ rune, WsRune rune ∧ b :: r = rune ++ (b :: r).drop (spWidth (b :: r)) := by
